@@ -131,6 +131,22 @@ def models():
     return [g1, g2, fc]
 
 
+def extra_models():
+    """models used by the GFF3 rules only (models() is shared with other properties)"""
+    # two isoforms that differ in their UTRs and share the coding region - the most common kind of alternative transcript
+    g4 = dict(
+        kind="gene", gene_id="G4", gene_symbol="g4", gene_type="protein_coding", locus_tag="L4", qualifiers=None,
+        transcripts=[
+            dict(exons=[(4, 20)], strand="PLUS", cds=[(8, 17)], start_frame=0, transcript_id="T7", transcript_symbol="t7",
+                 transcript_type="protein_coding", protein_id=None, product=None, qualifiers=None),
+            dict(exons=[(6, 12), (12, 23)], strand="PLUS", cds=[(8, 12), (12, 17)], start_frame=0, transcript_id="T8", transcript_symbol="t8",
+                 transcript_type="protein_coding", protein_id=None, product=None, qualifiers=None),
+            dict(exons=[(5, 21)], strand="PLUS", cds=[(8, 17)], start_frame=0, transcript_id="T9", transcript_symbol="t9",
+                 transcript_type="protein_coding", protein_id=None, product=None, qualifiers=None),
+        ])
+    return [g4]
+
+
 def build(it, S, parent, model):
     F = it.enum("CDSFrame")
     nm = {0: "ZERO", 1: "ONE", 2: "TWO"}
@@ -232,7 +248,15 @@ def check_text(lines, expected_groups, desc, qual):
             return out
         rid = next(iter(rid))
         if rid in ids:
-            out.append(("unique IDs", f"{desc}: ID {rid!r} used twice", qual))
+            first = rows[ids[rid]]
+            shared_cds = (d["type"] == "CDS" and first["type"] == "CDS" and (first["start"], first["end"]) == (d["start"], d["end"])
+                          and first["attrs"].get("Parent") != d["attrs"].get("Parent"))
+            if shared_cds:
+                out.append(("unique IDs [CDS rows of isoforms that share a coding block]", f"{desc}: ID {rid!r} is written on the CDS rows of two "
+                            f"transcripts (Parents {sorted(first['attrs'].get('Parent') or [])} and {sorted(d['attrs'].get('Parent') or [])})",
+                            "gene.cds:CDSInterval.to_gff"))
+            else:
+                out.append(("unique IDs", f"{desc}: ID {rid!r} used twice", qual))
         ids.setdefault(rid, i)
         par = d["attrs"].get("Parent")
         if par:
@@ -292,7 +316,7 @@ def _case(repo, it, S, spec):
         parent, off = None, 0
     else:
         parent, off = chunk_parent(it, GENOME, 2, 49, alphabet="NT_EXTENDED"), (0 if chrom_mode else 2)
-    ms = [m for i, m in enumerate(models()) if i in which]
+    ms = [m for i, m in enumerate(models() + extra_models()) if i in which]
     desc = f"collection {which} parent={parent_kind} mode={'chromosome' if chrom_mode else 'chunk-relative'}"
     try:
         objs = [build(it, S, parent, m) for m in ms]
@@ -389,7 +413,7 @@ def rc_cut_chunks(ctx):
 
 def rk_export(ctx):
     specs = []
-    for which in ((0,), (1,), (2,), (0, 1, 2), (1, 2)):
+    for which in ((0,), (1,), (2,), (0, 1, 2), (1, 2), (3,)):
         specs.append(("chrom", True, which))
         specs.append(("none", True, which))
         specs.append(("chunk", True, which))
